@@ -460,6 +460,19 @@ def _spec_facts(run, v, dims):
   return facts
 
 
+def _is_mem(x):
+  """an applied uninterpreted function that stands for memory (an array cell), as opposed to the arithmetic helpers and
+  to the per-iteration value of a loop-carried local (`count@L0!3(k)`: unknown, but thread-local)"""
+  if x.decl().kind() != z3.Z3_OP_UNINTERPRETED or x.num_args() == 0:
+    return False
+  n = x.decl().name()
+  if n.split("@")[0] in ("pow2", "div0", "mod0"):
+    return False
+  if "@L" in n and "!" in n:
+    return False
+  return True
+
+
 def _has_array_read(t, cache=None):
   """does the index term read memory (an applied uninterpreted function other than the arithmetic helpers)?
   cache: {ast id: bool} shared by the caller (sub-terms are shared between the index terms of one kernel)"""
@@ -475,7 +488,7 @@ def _has_array_read(t, cache=None):
     if done:
       r = False
       if z3.is_app(x):
-        if x.decl().kind() == z3.Z3_OP_UNINTERPRETED and x.num_args() > 0 and x.decl().name().split("@")[0] not in ("pow2", "div0", "mod0"):
+        if _is_mem(x):
           r = True
         else:
           r = any(cache.get(c.get_id(), False) for c in x.children())
@@ -483,7 +496,7 @@ def _has_array_read(t, cache=None):
       continue
     stack.append((x, True))
     if z3.is_app(x):
-      if x.decl().kind() == z3.Z3_OP_UNINTERPRETED and x.num_args() > 0 and x.decl().name().split("@")[0] not in ("pow2", "div0", "mod0"):
+      if _is_mem(x):
         continue  # decided at this node, no need to look below
       for c in x.children():
         if c.get_id() not in cache:
@@ -624,25 +637,35 @@ def bounds_obligations(run, label):
         seen.add(sg)
         if f"{key}|{fname}[{k}]" in _bounds_excluded():
           continue  # committed list of subscripts that need facts about stored data (contracts/bounds_needs_wf.txt)
+                    # (entries `...|lo` / `...|hi` exclude only the lower / upper bound of a subscript)
         sh = ex.shape_sym(a.arr, k)
         n_ob += 1
         oid = f"{key}[{label}]#BOUNDS.{fname}[{k}]@{a.lineno}.{a.kind}@{s.host.split(':')[-1]}:{s.lineno}"
         m = dict(meta0, goal=f"0 <= {str(t)[:60]} < {fname}.shape[{k}] at line {a.lineno} (launch {s.dim})", lineno=a.lineno, int_projection=True, timeout_ms=4000)
-        goal = sh > 0 if (z3.is_int_value(t) and t.as_long() == 0) else z3.And(t >= 0, t < sh)
-        if inc is not None:
-          inc.push()
-          try:
-            for c in _smt.integer_projection([zb(a.guard)], pstate):
-              inc.add(c)
-            inc.add(z3.Not(goal))
-            r = inc.check()
-          except z3.Z3Exception:
-            r = z3.unknown
-          inc.pop()
-          if r == z3.unsat:
-            out.append(Result(oid=oid, status="discharged", kind="BOUNDS", func=key, backend="z3-5.1(api) incremental, integer projection of the hypotheses", meta={k2: v for k2, v in m.items() if k2 not in ("int_projection", "timeout_ms")}))
+        parts = [("hi", sh > 0 if (z3.is_int_value(t) and t.as_long() == 0) else t < sh)]
+        if not z3.is_int_value(t):
+          parts.append(("lo", t >= 0))
+        gproj = None
+        for side, goal in parts:
+          if f"{key}|{fname}[{k}]|{side}" in _bounds_excluded():
             continue
-        out.append(Obligation(oid, list(ex.assumes) + sf + [zb(a.guard)], goal, func=key, kind="BOUNDS", meta=m))
+          oid2 = oid + "." + side
+          if inc is not None:
+            inc.push()
+            try:
+              if gproj is None:
+                gproj = _smt.integer_projection([zb(a.guard)], pstate)
+              for c in gproj:
+                inc.add(c)
+              inc.add(z3.Not(goal))
+              r = inc.check()
+            except z3.Z3Exception:
+              r = z3.unknown
+            inc.pop()
+            if r == z3.unsat:
+              out.append(Result(oid=oid2, status="discharged", kind="BOUNDS", func=key, backend="z3-5.1(api) incremental, integer projection of the hypotheses", meta={k2: v for k2, v in m.items() if k2 not in ("int_projection", "timeout_ms")}))
+              continue
+          out.append(Obligation(oid2, list(ex.assumes) + sf + [zb(a.guard)], goal, func=key, kind="BOUNDS", meta=m))
   return out
 
 
@@ -669,7 +692,94 @@ def _thread_local_consts(terms):
   return out
 
 
-def race_obligations(run, label):
+def _site_dim_facts(run, site):
+  """launch extents and integer parameters of one launch site as facts over extent symbols (see bounds_obligations)"""
+  ex = run.ex
+  facts = []
+  comps = _dim_components(site.dim) or []
+  dimt = [_dim_term(c, site, run) for c in comps]
+  for j, d in enumerate(ex.dims):
+    if j < len(dimt) and dimt[j] is not None:
+      facts.append(d == dimt[j])
+  for f, a in site.binding.items():
+    v = run.params.get(f)
+    if isinstance(v, z3.ExprRef) and z3.is_int(v):
+      t = a.replace(" ", "")
+      if t.startswith(("m.", "d.", "mfull.", "dfull.")) and t.count(".") == 1:
+        facts.append(v == _ext(t.split(".")[1]))
+  for name, v in run.params.items():
+    if isinstance(v, ArrRef):
+      cls = census.classify_formal(name)
+      if cls is not None and not (cls[0] == "Constraint" and cls[1] in ("J", "J_colind", "J_rownnz", "J_rowadr")):
+        facts.extend(_spec_facts(run, v, cls[2]))
+  for a, b in SIZE_FACTS:
+    facts.append(_ext(a) <= _ext(b))
+  return facts, tuple(str(d) for d in dimt)
+
+
+_TABLE_STORES = None
+
+
+def _table_stores():
+  global _TABLE_STORES
+  if _TABLE_STORES is None:
+    import os
+
+    _TABLE_STORES = set()
+    p = os.path.join(os.path.dirname(os.path.dirname(os.path.abspath(__file__))), "contracts", "race_table_stores.txt")
+    if os.path.exists(p):
+      for line in open(p):
+        line = line.strip()
+        if line and not line.startswith("#"):
+          _TABLE_STORES.add(line.split()[0])
+  return _TABLE_STORES
+
+
+_RACE_EXCL = None
+
+
+def _race_excluded():
+  global _RACE_EXCL
+  if _RACE_EXCL is None:
+    import os
+
+    _RACE_EXCL = set()
+    p = os.path.join(os.path.dirname(os.path.dirname(os.path.abspath(__file__))), "contracts", "race_needs_wf.txt")
+    if os.path.exists(p):
+      for line in open(p):
+        line = line.strip()
+        if line and not line.startswith("#"):
+          _RACE_EXCL.add(line.split()[0])
+  return _RACE_EXCL
+
+
+def _index_is_plain(t, cache):
+  """RACE's notion of a decidable index: arithmetic over thread ids, loop counters, integer parameters and atomic
+  returns only -- no memory read and no loop-carried local (whose value the loop rule leaves unknown)"""
+  k = t.get_id()
+  if k in cache:
+    return cache[k]
+  ok = True
+  stack = [t]
+  seen = set()
+  while stack and ok:
+    x = stack.pop()
+    if x.get_id() in seen:
+      continue
+    seen.add(x.get_id())
+    if z3.is_app(x):
+      if x.decl().kind() == z3.Z3_OP_UNINTERPRETED:
+        n = x.decl().name()
+        if x.num_args() > 0 and n.split("@")[0] not in ("pow2", "div0", "mod0"):
+          ok = False
+        elif "@L" in n:
+          ok = False
+      stack.extend(x.children())
+  cache[k] = ok
+  return ok
+
+
+def race_obligations(run, label, data_dependent=False):
   """RACE: two DISTINCT threads of one launch never touch the same cell of an array in a conflicting way -- a plain
   store against any other access (store, read, atomic) -- so the result cannot depend on the order in which the
   threads run. Atomic-against-atomic pairs are commutative updates and are accepted (sum order: round-off only);
@@ -712,14 +822,22 @@ def race_obligations(run, label):
         if b.kind == "r" and b is not wa:
           # read against plain store by another thread
           pass
-        pure = all(i is None or (z3.is_int(lift(i)) and not _has_array_read(lift(i), rd_cache)) for i in list(wa.idx) + list(b.idx))
+        pure = data_dependent or all(i is None or (z3.is_int(lift(i)) and _index_is_plain(lift(i), rd_cache)) for i in list(wa.idx) + list(b.idx))
         if not pure:
           skipped += 1
+          # a plain store through an index table / a stored address: race-free only if the table maps different threads
+          # to different cells. The (kernel|formal) pairs of the unchanged tree are listed in contracts/race_table_stores.txt
+          # (assumed: MODEL_WF injectivity of those tables). Any OTHER such store is checked against itself in a second
+          # thread without that assumption (e.g. an atomic accumulation turned into a plain store).
+          if b is wa and f"{key}|{formals[aid]}" not in _table_stores():
+            pairs.append((formals[aid], wa, b))
           continue
         sg = (tuple(lift(i).get_id() for i in wa.idx if i is not None), zb(wa.guard).get_id(), tuple(lift(i).get_id() for i in b.idx if i is not None), zb(b.guard).get_id(), b.kind)
         if sg in sig_seen:
           continue
         sig_seen.add(sg)
+        if f"{key}|{formals[aid]}" in _race_excluded():
+          continue
         pairs.append((formals[aid], wa, b))
   if not pairs:
     return out
@@ -733,6 +851,14 @@ def race_obligations(run, label):
   prime = lambda t: z3.substitute(t, *ren) if ren else t
   distinct = z3.Or(*[t != prime(t) for t in ex.tids])
   pstate = {"keep": []}
+  # launch extents: facts that hold at EVERY launch site are used (the conjunction of per-site facts would be unsound
+  # when sites differ; kernels in question have one site or identical extents)
+  site_facts = None
+  for s_ in _ls.sites_of_kernel(key):
+    f_, sig_ = _site_dim_facts(run, s_)
+    cur = {str(x): x for x in f_}
+    site_facts = cur if site_facts is None else {k_: v_ for k_, v_ in site_facts.items() if k_ in cur}
+  base = base + list((site_facts or {}).values())
   inc = z3.Solver()
   inc.set("timeout", 2000)
   try:
@@ -947,6 +1073,8 @@ def kernel_group(key, which, dedupe_label=True):
         out.extend(bounds_obligations(run, label))
       if "RACE" in which:
         out.extend(race_obligations(run, label))
+      if "RACE_ALL" in which:
+        out.extend(race_obligations(run, label, data_dependent=True))
     return out
 
   return gen
